@@ -61,6 +61,7 @@ type task struct {
 	spin     int64        // yield points passed since the last release
 	spunOut  atomic.Int64 // how often in a row it had to be stopped for never blocking
 	lastSpun bool
+	restless int   // controller-owned: consecutive releases that ended at a yield point, not by blocking
 	quantum  int64 // owned by the task while it runs, by the controller while it is parked (accessed from norace code only)
 }
 
@@ -155,8 +156,28 @@ func New(c *Choices) *Sim {
 // Install makes s the active simulator.
 func (s *Sim) Install() { S.Store(s) }
 
-// Uninstall removes the active simulator.
-func (s *Sim) Uninstall() { S.CompareAndSwap(s, nil) }
+// Uninstall removes the active simulator. Goroutines of the run that are still
+// alive — blocked for good, or spinning without ever blocking, which a
+// property-breaking change to the program can cause — must not live on inside
+// the worker process: a spinner would eat a CPU for the rest of the batch and
+// keep its bubble from ever finishing. They are marked here and end themselves
+// (runtime.Goexit, deferred calls run) at the next yield point they reach.
+func (s *Sim) Uninstall() {
+	s.tasks.Range(func(k, v any) bool {
+		zombies.Store(k, struct{}{})
+		return true
+	})
+	S.CompareAndSwap(s, nil)
+}
+
+var zombies sync.Map // goid -> struct{}: goroutines of finished runs
+
+//go:norace
+func reapIfZombie() {
+	if _, ok := zombies.LoadAndDelete(Goid()); ok {
+		runtime.Goexit()
+	}
+}
 
 func (s *Sim) lookup(gid int64) *task {
 	if v, ok := s.tasks.Load(gid); ok {
@@ -169,6 +190,7 @@ func (s *Sim) lookup(gid int64) *task {
 func Yield(site int32) {
 	s := S.Load()
 	if s == nil {
+		reapIfZombie()
 		return
 	}
 	s.yield(site)
@@ -184,6 +206,7 @@ func (s *Sim) yield(site int32) {
 	}
 	t := s.lookup(gid)
 	if t == nil {
+		reapIfZombie() // a goroutine left over from an earlier run of this process
 		t = s.registerForeign(gid, site)
 	}
 	if s.current.Load() == t {
@@ -378,7 +401,31 @@ func (s *Sim) Step() bool {
 	s.release(id, q)
 	s.Settle()
 	s.current.Store(nil)
+	s.noteOutcome(id)
 	return true
+}
+
+// restlessAfter: a task that was released this many times in a row and every
+// time came back by parking at a yield point — it never blocked on anything —
+// is from then on released with an unlimited quantum. A goroutine that spins
+// (a retry loop without a wait, which a change to the program can introduce)
+// then reaches the spin limit within one release and is reported as a
+// livelock after SpinOuts releases, instead of eating the whole step budget a
+// few statements at a time. A long legitimate computation only loses the
+// preemption inside the rest of that computation. Controller-owned and a pure
+// function of the schedule so far: replays are unaffected.
+const restlessAfter = 3000
+
+func (s *Sim) noteOutcome(id int) {
+	t := s.alive[id]
+	if t == nil {
+		return
+	}
+	if _, parkedAgain := s.parked[id]; parkedAgain {
+		t.restless++
+	} else {
+		t.restless = 0
+	}
 }
 
 // StepTask releases a specific task (used by harnesses that need to force a
@@ -391,6 +438,7 @@ func (s *Sim) StepTask(id int, quantum int) bool {
 	s.release(id, quantum)
 	s.Settle()
 	s.current.Store(nil)
+	s.noteOutcome(id)
 	return true
 }
 
@@ -420,6 +468,9 @@ func (s *Sim) release(id int, q int) {
 	}
 	s.lastSite = site
 	s.lastRun = id
+	if t.restless >= restlessAfter {
+		q = -1
+	}
 	if s.TraceOn && len(s.Trace) < 20000 {
 		s.Trace = append(s.Trace, fmt.Sprintf("%d:t%d@%s q=%d", s.Steps, id, SiteName(site), q))
 	}
